@@ -484,7 +484,9 @@ func intBoundary(t tbin.Type) []int64 {
 func dblBoundary() []float64 {
 	return []float64{0, math.Copysign(0, -1), 1, -1, -1.5, 0.1, 0.5, 2, 10, 100, 123456789, 1e15, 1e16, 1e20, 1e21, 1e22, 1e23, 1e-5, 1e-6, 1e-7,
 		5e-324, 2.2250738585072014e-308, 2.225073858507201e-308, math.MaxFloat64, -math.MaxFloat64, 9007199254740991, 9007199254740992, 9007199254740993,
-		0.3, 1.0 / 3, 123.456, 4.35, 2.5e-8, 1.7976931348623157e308, 8.41e21, 5e-320}
+		0.3, 1.0 / 3, 123.456, 4.35, 2.5e-8, 1.7976931348623157e308, 8.41e21, 5e-320,
+		// whole numbers whose plain spelling has 19 / 20 digits and lies beyond int64 / uint64
+		9223372036854775808, 9.5e18, -9.5e18, -9223372036854777856, 1e19, 18446744073709551616}
 }
 
 func strBoundary() []string {
